@@ -117,7 +117,6 @@ def main_run(cid, tier, seed, jobs=None, replay=None):
         case = json.loads(Path(replay).read_text())
         case = case.get("case", case)
         from vf import worker
-        import shutil
 
         # a replay gets the same environment as a case of a normal run: its own scratch directory and the shared
         # fixtures the check builds in prepare()
